@@ -36,7 +36,7 @@ CFGS = ["absent", "any", "never", "version"]
 POLICIES = ["generate", "allow", "deny"]
 RENAMES = [None, "other", "other-crate"]
 PARAMS = ["0", "1i", "1r", "2", "1x", "1c", "1s"]
-SITES = ["member", "def_same", "def_diff", "vec", "inline", "allof1", "allof2"]
+SITES = ["member", "def_same", "def_diff", "def_suffix", "vec", "inline", "allof1", "allof2"]
 MALFORMED = ["no_path", "no_version", "no_crate", "bad_req", "empty_req", "path_no_sep", "path_other_crate", "path_hyphen", "ext_string", "ext_number",
              "ext_array", "params_string"]
 MARKER = "marker_zz9"
@@ -96,6 +96,12 @@ def build_doc(site, req, params, mal, params2=None):
         defs["Thing"] = thing
         defs["User"] = {"type": "object", "properties": {"m": {"$ref": "#/definitions/Thing"}}, "required": ["m"]}
     elif site == "def_same":
+        defs["Thing"] = thing
+        defs["User"] = {"type": "object", "properties": {"m": {"$ref": "#/definitions/Thing"}}, "required": ["m"]}
+    elif site == "def_suffix":
+        # the definition's name (Thing) is a proper SUFFIX of the external type's last segment (BigThing): the names differ
+        thing = dict(thing)
+        thing["x-rust-type"] = dict(thing["x-rust-type"], path=thing["x-rust-type"].get("path", "").replace("::Thing", "::BigThing")) if isinstance(thing["x-rust-type"], dict) else thing["x-rust-type"]
         defs["Thing"] = thing
         defs["User"] = {"type": "object", "properties": {"m": {"$ref": "#/definitions/Thing"}}, "required": ["m"]}
     elif site == "def_diff":
@@ -165,14 +171,14 @@ def cases(tier, seed):
     for mal in MALFORMED:
         for cfg in CFGS:
             for policy in POLICIES:
-                for site in (SITES if tier != "quick" else ["member", "def_diff", "inline"]):
+                for site in (SITES if tier != "quick" else ["member", "def_diff", "def_suffix", "inline"]):
                     add(mk(cfg, policy, ("^1.2.3", "1.2.4", T), None, "0", site, mal))
     return list(out.values())
 
 
 def expected_path(c, which="params"):
     first = (c["rename"].replace("-", "_") if c["rename"] else IDENT)
-    p = "::" + first + "::sub::Thing"
+    p = "::" + first + ("::sub::BigThing" if c.get("site") == "def_suffix" else "::sub::Thing")
     c = dict(c, params=c[which])
     if c["params"] == "1i":
         p += "<::std::string::String>"
@@ -261,8 +267,12 @@ def execute(cases_, tier, seed):
                 probs.append("schema structure generated in %s" % structural)
             # 'directly, or through a transparent newtype named after the definition when the names differ':
             # a wrapper is only acceptable for the definition whose name differs from the path's last segment
-            if "newtype" in chain and (c["site"] != "def_diff" or mt["ident"].replace(" ", "") != "Other"):
+            named_after = {"def_diff": "Other", "def_suffix": "Thing"}.get(c["site"])
+            if "newtype" in chain and (named_after is None or mt["ident"].replace(" ", "") != named_after):
                 probs.append("unexpected newtype wrapper %s" % mt["ident"])
+            # ... and where the names differ the definition keeps a type of its own name (the transparent newtype), so that code naming it still compiles
+            if named_after and not c["params"] != "0" and "newtype" not in chain:
+                probs.append("no type named after the definition %s (member typed %s)" % (named_after, mt["ident"]))
             if probs:
                 res.violations.append(Violation(c["key"], "not-substituted" if final != exp and structural else "wrong-substitution",
                                                 "; ".join(probs), c, expected={"path": exp, "no_structure": True}, observed=obs, features=feats))
